@@ -199,6 +199,7 @@ type deferred struct {
 }
 
 type loopEntry struct {
+	initVals    map[*ssa.Phi]Value
 	heapAtEntry Heap
 	phis        map[*ssa.Phi]Value
 }
@@ -694,7 +695,30 @@ func (e *Engine) load(s *State, pl Place, t types.Type) Value {
 		v[i] = s.sel(pl.Prefix+sl.Suffix, sl.Sort, pl.Addr)
 	}
 	e.typingAssume(s, t, v)
+	e.allocatedAssume(s, t, v)
 	return v
+}
+
+// allocatedAssume: heap well-formedness — every reference read from the heap denotes an object
+// that has already been allocated (it is at most the current allocation watermark).
+func (e *Engine) allocatedAssume(s *State, t types.Type, v Value) {
+	refAt := -1
+	switch t.Underlying().(type) {
+	case *types.Pointer, *types.Map:
+		refAt = 0
+	case *types.Slice:
+		refAt = 0
+	case *types.Interface:
+		refAt = 1
+	}
+	if refAt < 0 || refAt >= len(v) {
+		return
+	}
+	r := v[refAt]
+	if r.K == KInt || r.K == KAlloc || r.K == KPlace || r.K == KFunc || isOldRef(r) {
+		return
+	}
+	s.assume(Le(r, s.allocTop()))
 }
 
 func (e *Engine) store(s *State, pl Place, t types.Type, v Value) {
